@@ -7,17 +7,17 @@ import numpy as np
 from ropt.results import FunctionResults, Results
 
 
-def _get_new_optimal_result(
-    optimal_result: FunctionResults | None, results: FunctionResults
-) -> FunctionResults | None:
-    if optimal_result is None:
-        return results
-    assert optimal_result.functions is not None
-    assert results.functions is not None
-    optimal = optimal_result.functions.weighted_objective
-    objective = results.functions.weighted_objective
-    if objective < optimal:
-        return results
+def _get_new_optimal_objective(
+    optimal_objective: float | None, transformed_results: FunctionResults
+) -> float | None:
+    # Results are compared in the domain where the optimizer minimizes, and
+    # results with an undefined objective can never be optimal:
+    assert transformed_results.functions is not None
+    objective = float(transformed_results.functions.weighted_objective)
+    if np.isnan(objective):
+        return None
+    if optimal_objective is None or objective < optimal_objective:
+        return objective
     return None
 
 
@@ -62,11 +62,11 @@ def _get_last_result(
 
 
 def _update_optimal_result(
-    optimal_result: FunctionResults | None,
+    optimal_objective: float | None,
     results: tuple[Results, ...],
     transformed_results: tuple[Results, ...],
     constraint_tolerance: float | None,
-) -> FunctionResults | None:
+) -> tuple[FunctionResults | None, float | None]:
     return_result: FunctionResults | None = None
     for item, transformed_item in zip(results, transformed_results, strict=False):
         if (
@@ -75,8 +75,10 @@ def _update_optimal_result(
             and not _violates_constraint(transformed_item, constraint_tolerance)
         ):
             assert isinstance(item, FunctionResults)
-            new_optimal_result = _get_new_optimal_result(optimal_result, item)
-            if new_optimal_result is not None:
-                optimal_result = new_optimal_result
-                return_result = new_optimal_result
-    return return_result
+            new_optimal_objective = _get_new_optimal_objective(
+                optimal_objective, transformed_item
+            )
+            if new_optimal_objective is not None:
+                optimal_objective = new_optimal_objective
+                return_result = item
+    return return_result, optimal_objective
